@@ -1607,6 +1607,59 @@ def gen_formats(ctx):
                     yield n, format_case(n, style, arb, fmt)
 
 
+def gen_stateful_pairs():
+    """Units of one or two configurations that must run in ONE process, in
+    order: state kept between loads / in the logging registry must not make
+    a later configuration behave differently.
+
+    (a) the same style+format once with arbitrary-fields on (names a field
+        ordinary records lack) and once with it off - as two handlers of
+        one configuration and as two consecutive loads, in both orders;
+    (b) one logger name configured twice with different propagate / level
+        (two logger sections with the same name, and two loads)."""
+    n = 0
+    unknown = {"classic": ["%(request_id)s %(message)s", "%(zcvx)5s"],
+               "format": ["{request_id} {message}", "{zcvx!r}"],
+               "template": ["${request_id} $message", "$zcvx."]}
+    for style, fmts in sorted(unknown.items()):
+        for fmt in fmts:
+            for order in ((True, False), (False, True)):
+                hs = []
+                for arb in order:
+                    h = {"path": "STDOUT", "style": style, "format": fmt}
+                    if arb:
+                        h["arbitrary-fields"] = "true"
+                    hs.append(h)
+                n += 1
+                # one configuration, two handlers
+                yield [{"kind": "config", "family": "formats", "loggers": [
+                    {"type": "logger", "name": "zcvp%d" % n,
+                     "handlers": hs}]}]
+                n += 1
+                # two consecutive loads
+                yield [{"kind": "config", "family": "formats", "loggers": [
+                    {"type": "logger", "name": "zcvp%d_%d" % (n, k),
+                     "handlers": [h]}]} for k, h in enumerate(hs)]
+    for p1, p2 in (("false", "true"), ("no", None), ("true", "false"),
+                   (None, "off")):
+        for l1, l2 in (("debug", "error"), ("warn", None), (None, "info")):
+            n += 1
+            lgs = []
+            for k, (p, lv) in enumerate(((p1, l1), (p2, l2))):
+                lg = {"type": "logger", "name": "zcvq%d" % n,
+                      "handlers": [{"path": "STDOUT"}] if k == 0 else []}
+                if p is not None:
+                    lg["propagate"] = p
+                if lv is not None:
+                    lg["level"] = lv
+                lgs.append(lg)
+            yield [{"kind": "config", "family": "handlers", "loggers": lgs}]
+            n += 1
+            yield [{"kind": "config", "family": "handlers",
+                    "loggers": [dict(lg, name="zcvq%d" % n)]}
+                   for lg in lgs]
+
+
 # -- sequences ---------------------------------------------------------------
 
 SEQ_HANDLERS = [
@@ -1766,6 +1819,12 @@ def _run_shard(ctx):
                 continue
             run_case(env, format_case(1000000 + k, style,
                                       rng.random() < 0.5, fmt), res)
+        for unit in gen_stateful_pairs():
+            i += 1
+            if ctx.mine(i):
+                res.count("stateful_units")
+                for case in unit:
+                    run_case(env, case, res)
         for case in directed_sequences():
             i += 1
             if ctx.mine(i):
